@@ -41,6 +41,8 @@ func main() {
 		err = cmdTags(*in, *out)
 	case "scan":
 		err = cmdScan(*in, *out)
+	case "values":
+		err = cmdValues(*in, *out)
 	case "cache":
 		err = cmdCache(*in, *out, *names)
 	default:
